@@ -19,7 +19,7 @@ source on disk is never touched; node positions are kept, so reports still point
   4. local closures used as plain helpers (``def reg(a, b): ...`` at the top of a function body, only ever called,
      after its definition, from the function's own scope) are inlined like private helpers (``Inliner._local_helpers``);
   6. ``for t in self._gen(a): BODY`` over a private generator that is one loop ending in its only ``yield`` becomes that
-     loop with ``t = <yielded>; BODY`` in place of the yield (``Inliner._expand_gen_loop``);
+     loop with ``t = <yielded>; BODY`` in place of the yield (``Inliner._expand_for``);
   5. loops over a short literal tuple / list of *variables* (``for src in (self.resources, overrides): d.update(src)``)
      are unrolled (``Unroll``); loops over constants (slot-name tables) keep their shape.
 
@@ -384,6 +384,21 @@ def _simple_arg(e):
     return False
 
 
+def _timeless_default(e):
+    """A default-argument expression that denotes the same object whether it is evaluated once (when the ``def`` runs) or
+    at every call: constants, names / dotted names (references to existing objects), signed numbers, tuples of such, and
+    lambdas (stateless).  Calls, displays of mutable containers, comprehensions, subscripts, operators are not."""
+    if isinstance(e, (ast.Constant, ast.Name, ast.Lambda)):
+        return True
+    if isinstance(e, ast.Attribute):
+        return _simple_arg(e)
+    if isinstance(e, ast.UnaryOp) and isinstance(e.op, (ast.USub, ast.UAdd, ast.Not)):
+        return isinstance(e.operand, ast.Constant)
+    if isinstance(e, ast.Tuple):
+        return all(_timeless_default(x) for x in e.elts)
+    return False
+
+
 def _stored_names(stmts):
     out = set()
     for s in stmts:
@@ -426,10 +441,10 @@ class Helper(object):
         return self.node.name
 
 
-def _eligible_def(fn):
+def _eligible_def(fn, any_name=False):
     if not isinstance(fn, ast.FunctionDef):
         return None
-    if not fn.name.startswith('_') or (fn.name.startswith('__') and fn.name.endswith('__')):
+    if (not fn.name.startswith('_') and not any_name) or (fn.name.startswith('__') and fn.name.endswith('__')):
         return None
     a = fn.args
     if a.vararg:
@@ -439,9 +454,14 @@ def _eligible_def(fn):
         # for the copy the call would make -- nothing in the helper can tell the difference
         kw = a.kwarg.arg
         passed = set(id(k.value) for n in ast.walk(fn) if isinstance(n, ast.Call) for k in n.keywords if k.arg is None and isinstance(k.value, ast.Name))
+        fn._vt_kw_consumed = False
         for n in ast.walk(fn):
             if isinstance(n, ast.Name) and n.id == kw and id(n) not in passed:
-                return None
+                # the helper looks into / hands on / changes the mapping itself: it then gets its own fresh dict
+                # (exactly what a call builds), see Inliner._bind -- unless it re-binds the name
+                if not isinstance(n.ctx, ast.Load):
+                    return None
+                fn._vt_kw_consumed = True
             if isinstance(n, ast.arg) and n.arg == kw and n is not a.kwarg:
                 return None
     kind = 'func'
@@ -468,6 +488,20 @@ def _eligible_def(fn):
     return kind
 
 
+def _bound_once(tree, name):
+    n = 0
+    for x in ast.walk(tree):
+        if isinstance(x, (ast.FunctionDef, ast.AsyncFunctionDef, ast.ClassDef)) and x.name == name:
+            n += 1
+        elif isinstance(x, ast.Name) and x.id == name and isinstance(x.ctx, (ast.Store, ast.Del)):
+            n += 1
+        elif isinstance(x, ast.arg) and x.arg == name:
+            n += 1
+        elif isinstance(x, ast.alias) and (x.asname or x.name).split('.')[0] == name:
+            n += 1
+    return n == 1
+
+
 def _calls_itself(fn):
     return any(isinstance(n, ast.Call) and ((isinstance(n.func, ast.Name) and n.func.id == fn.name) or
                                             (isinstance(n.func, ast.Attribute) and n.func.attr == fn.name)) for n in ast.walk(fn))
@@ -491,7 +525,7 @@ def collect_helpers(tree, anchors):
                 if isinstance(m, ast.FunctionDef) and m.name not in anchors:
                     kind = _eligible_def(m)
                     if kind is None and st.name.startswith('_') and not st.name.startswith('__') and st.name not in anchors and \
-                            not m.name.startswith('_') and not _calls_itself(m):
+                            not m.name.startswith('_') and not _calls_itself(m) and _bound_once(tree, st.name):
                         # a static / class method with a public name on a *private* class (``_Options.from_kwargs(kw)``):
                         # the class is the private helper
                         fake = copy.copy(m)
@@ -513,6 +547,40 @@ def collect_helpers(tree, anchors):
         mod_helpers.pop(r, None)
     return mod_helpers, cls_helpers
 
+
+def collect_named_class_helpers(tree, anchors):
+    """Static / class methods of a *private* module-level class, whatever their own name (``_Options.from_kwargs``):
+    (class name, method name) -> Helper.  A call that names the class explicitly -- ``_Options.from_kwargs(kw)`` -- runs
+    exactly that function with ``cls`` = the class when the class name is bound once in the module (the ``class``
+    statement), the class has no metaclass, and its body binds the method name once (the ``def``)."""
+    out = {}
+    bound = {}
+    for n in ast.walk(tree):
+        if isinstance(n, ast.Name) and isinstance(n.ctx, (ast.Store, ast.Del)):
+            bound[n.id] = bound.get(n.id, 0) + 1
+        elif isinstance(n, (ast.FunctionDef, ast.AsyncFunctionDef, ast.ClassDef)):
+            bound[n.name] = bound.get(n.name, 0) + 1
+        elif isinstance(n, (ast.Global, ast.Nonlocal)):
+            for x in n.names:
+                bound[x] = bound.get(x, 0) + 2
+        elif isinstance(n, ast.alias):
+            nm = (n.asname or n.name).split('.')[0]
+            bound[nm] = bound.get(nm, 0) + 1
+    for st in tree.body:
+        if not isinstance(st, ast.ClassDef) or not st.name.startswith('_') or st.name.startswith('__') or st.name in anchors:
+            continue
+        if st.keywords or st.decorator_list or bound.get(st.name) != 1:
+            continue
+        in_body = {}
+        for m in st.body:
+            for nm in ([m.name] if isinstance(m, (ast.FunctionDef, ast.AsyncFunctionDef, ast.ClassDef)) else _stored_names([m])):
+                in_body[nm] = in_body.get(nm, 0) + 1
+        for m in st.body:
+            if isinstance(m, ast.FunctionDef) and m.name not in anchors and not m.name.startswith('_') and in_body.get(m.name) == 1:
+                kind = _eligible_def(m, any_name=True)
+                if kind in ('static', 'class'):
+                    out[(st.name, m.name)] = Helper(m, kind, st.name)
+    return out
 
 
 # ---------------------------------------------------------------------------------------------- context managers
@@ -610,54 +678,49 @@ def collect_context_managers(tree, anchors):
     return mod, cls
 
 
-# ---------------------------------------------------------------------------------------------- generators consumed by a for loop
-_GEN_BODY = '__vt_gen_body__'
-
-
-def _gen_shape(fn):
-    """A generator whose body is straight-line statements followed by one ``for`` loop (no ``else``) that ends, at the
-    top level of its body, in the function's only ``yield`` -- and nothing behind the loop, no ``return``:
-    -> (the loop, whether the loop body can ``break``).  None for any other shape."""
-    body = list(fn.body)
-    if body and isinstance(body[0], ast.Expr) and isinstance(body[0].value, ast.Constant) and isinstance(body[0].value.value, str):
-        body = body[1:]
-    ys = [n for n in ast.walk(fn) if isinstance(n, (ast.Yield, ast.YieldFrom))]
-    if len(ys) != 1 or not isinstance(ys[0], ast.Yield) or not body or _contains_return(body):
-        return None
-    loop = body[-1]
-    if not isinstance(loop, ast.For) or loop.orelse or not loop.body:
-        return None
-    last = loop.body[-1]
-    if not (isinstance(last, ast.Expr) and last.value is ys[0]):
-        return None
-    brk = _contains(loop.body, ast.Break, stop=(ast.FunctionDef, ast.AsyncFunctionDef, ast.ClassDef, ast.Lambda, ast.For, ast.While))
-    return loop, brk
+# ---------------------------------------------------------------------------------------------- generators driving a for loop
+_YIELD_HERE = '__vt_yield_here__'
 
 
 def _eligible_gen(fn, anchors):
+    """A private, non-anchor generator whose body is straight-line statements followed by ONE loop whose last top-level
+    statement is the generator's only ``yield`` (an expression statement): -> (kind, fake definition with the yield replaced
+    by a placeholder).  ``for T in gen(..): BODY`` is then the generator's loop with ``T = <value>; BODY`` where the yield
+    stood (see Inliner._expand_for)."""
     if not isinstance(fn, ast.FunctionDef) or fn.name in anchors or not fn.name.startswith('_') or fn.name.startswith('__'):
         return None
-    if any(not (isinstance(d, ast.Name) and d.id == 'staticmethod') for d in fn.decorator_list):
+    ys = [n for n in ast.walk(fn) if isinstance(n, (ast.Yield, ast.YieldFrom))]
+    if len(ys) != 1 or not isinstance(ys[0], ast.Yield):
         return None
-    shape = _gen_shape(fn)
-    if shape is None:
+    body = list(fn.body)
+    if body and isinstance(body[0], ast.Expr) and isinstance(body[0].value, ast.Constant) and isinstance(body[0].value.value, str):
+        body = body[1:]
+    if body and isinstance(body[-1], ast.Return) and body[-1].value is None:
+        body = body[:-1]
+    if not body or not isinstance(body[-1], (ast.For, ast.While)) or body[-1].orelse or _contains_return(body):
         return None
-    # everything else as for a plain helper: judged on a copy in which the yield is an ordinary statement
+    loop = body[-1]
+    last = loop.body[-1]
+    if not (isinstance(last, ast.Expr) and last.value is ys[0]):
+        return None
     fake = copy.deepcopy(fn)
-    loop = [b for b in fake.body if isinstance(b, ast.For)][-1]
-    st = loop.body[-1]
-    v = st.value.value
-    loop.body[-1] = ast.copy_location(ast.Expr(value=ast.Tuple(elts=[ast.Name(id=_GEN_BODY, ctx=ast.Load())] + ([v] if v is not None else []),
-                                                                 ctx=ast.Load())), st)
+    fake.decorator_list = [d for d in fake.decorator_list if isinstance(d, ast.Name) and d.id == 'staticmethod']
+    if len(fake.decorator_list) != len(fn.decorator_list):
+        return None
+    if isinstance(fake.body[-1], ast.Return):
+        fake.body = fake.body[:-1]
+    floop = fake.body[-1]
+    v = floop.body[-1].value.value
+    floop.body[-1] = ast.copy_location(ast.Expr(value=ast.Tuple(elts=[ast.Name(id=_YIELD_HERE, ctx=ast.Load())] +
+                                                                ([v] if v is not None else []), ctx=ast.Load())), floop.body[-1])
     kind = _eligible_def(fake)
     if kind is None:
         return None
-    return kind, fake, shape[1]
+    return kind, fake
 
 
 def collect_generators(tree, anchors):
-    mod, cls = {}, {}
-    counts = {}
+    mod, cls, counts = {}, {}, {}
     for st in tree.body:
         if isinstance(st, ast.ClassDef):
             for m in st.body:
@@ -668,14 +731,14 @@ def collect_generators(tree, anchors):
             r = _eligible_gen(st, anchors)
             if r is not None and r[0] == 'func':
                 h = Helper(r[1], 'func')
-                h.brk, h.orig = r[2], st
+                h.orig = st
                 mod[st.name] = h
         elif isinstance(st, ast.ClassDef):
             for m in st.body:
                 r = _eligible_gen(m, anchors) if isinstance(m, ast.FunctionDef) else None
                 if r is not None and counts.get(m.name) == 1:
                     h = Helper(r[1], 'method' if r[0] == 'func' else r[0], st.name)
-                    h.brk, h.orig = r[2], m
+                    h.orig = m
                     cls[(st.name, m.name)] = h
     for st in ast.walk(tree):
         if isinstance(st, ast.Assign):
@@ -793,6 +856,7 @@ class Inliner(object):
     def __init__(self, tree, anchors, foreign=None):
         self.tree = tree
         self.mod_helpers, self.cls_helpers = collect_helpers(tree, anchors)
+        self.named_cls_helpers = collect_named_class_helpers(tree, anchors)
         # foreign(name) -> True when another module of the analysed tree mentions ``name`` (None: unknown, assume it does)
         self.foreign = foreign
         self.cm_mod, self.cm_cls = collect_context_managers(tree, anchors)
@@ -915,6 +979,8 @@ class Inliner(object):
                     return h, f.value
             if (recv, f.attr) in self.cls_helpers and self.cls_helpers[(recv, f.attr)].kind in ('static', 'class'):
                 return self.cls_helpers[(recv, f.attr)], f.value
+            if (recv, f.attr) in self.named_cls_helpers and recv not in self.shadowed:
+                return self.named_cls_helpers[(recv, f.attr)], f.value
         return None, None
 
     # -- expansion ---------------------------------------------------------------------------------------
@@ -962,6 +1028,10 @@ class Inliner(object):
             if p not in binding:
                 if p not in defaults:
                     raise CannotInline('unbound parameter %s' % p)
+                if not _timeless_default(defaults[p]):
+                    # ``def f(key=os.urandom(20))`` / ``def f(acc=[])``: the default is ONE value, computed when the function
+                    # is defined; writing the expression at the call site would compute a new one per call
+                    raise CannotInline('default of %s is evaluated once, at definition time' % p)
                 binding[p] = defaults[p]
         body = [s for s in fn.body]
         if body and isinstance(body[0], ast.Expr) and isinstance(body[0].value, ast.Constant) and isinstance(body[0].value.value, str):
@@ -995,7 +1065,25 @@ class Inliner(object):
                 rename[n] = new
                 taken.add(new)
         mapping, pre = {}, []
-        if kwparam is not None:
+        kw_consumed = kwparam is not None and getattr(fn, '_vt_kw_consumed', False)
+        if kw_consumed:
+            # the helper uses its ``**kw`` as a mapping: bind it to the fresh dict the call would build
+            real = binding[kwparam]
+            if isinstance(real, ast.Dict) and not real.keys:
+                val = ast.Dict(keys=[ast.Constant(value=e.arg) for e in extra_kws], values=[copy.deepcopy(e.value) for e in extra_kws])
+            else:
+                val = ast.Call(func=ast.Name(id='dict', ctx=ast.Load()), args=[copy.deepcopy(real)],
+                               keywords=[ast.keyword(arg=e.arg, value=copy.deepcopy(e.value)) for e in extra_kws])
+                if 'dict' in caller_names:
+                    raise CannotInline('dict is shadowed')
+            tgt = kwparam
+            while tgt in taken or (tgt != kwparam and tgt in stored):
+                tgt += '_'
+            taken.add(tgt)
+            rename[kwparam] = tgt
+            pre.append(ast.copy_location(ast.Assign(targets=[ast.Name(id=tgt, ctx=ast.Store())], value=val), call))
+            extra_kws = []
+        elif kwparam is not None:
             mapping[kwparam] = ast.Name(id=_KW_PASS, ctx=ast.Load())      # only ever read as ``**kw``: see below
         for p in params + kwonly:
             v = binding[p]
@@ -1013,7 +1101,7 @@ class Inliner(object):
                 mapping[p] = v
         sub = _Subst(mapping, rename)
         body = [sub.visit(s) for s in body]
-        if kwparam is not None:
+        if kwparam is not None and not kw_consumed:
             # ``g(.., **kw)`` in the helper: the caller's explicit extra keywords, then the caller's own ``**mapping``
             real = binding[kwparam]
             empty = isinstance(real, ast.Dict) and not real.keys
@@ -1132,65 +1220,54 @@ class Inliner(object):
         self.used.add(id(h.orig))
         return pre + body
 
-    # -- ``for T in gen(..): BODY`` for a generator of this module that is one loop ending in its only yield -----
-    def _gen_of(self, call, cls_name):
+    # -- ``for T in gen(..): BODY`` for a one-loop generator of this module ----------------------------------
+    def _expand_for(self, s, cls_name, caller_names):
+        """The generator runs its prefix when the loop starts, then one iteration of its own loop per item, suspended at the
+        yield while BODY runs; the yield is the last statement of that loop, so ``continue`` in BODY (next item) is
+        ``continue`` of the generator's loop, and ``break`` / ``return`` in BODY (the generator is closed; nothing follows
+        its loop) leave it the same way."""
+        call = s.iter
         f = call.func
         if any(isinstance(a, ast.Starred) for a in call.args) or any(k.arg is None for k in call.keywords):
-            return None, None
-        if isinstance(f, ast.Name) and f.id in self.gen_mod and f.id not in self.shadowed:
-            return self.gen_mod[f.id], None
-        if isinstance(f, ast.Attribute) and isinstance(f.value, ast.Name) and f.value.id in ('self', 'cls') and cls_name is not None:
-            h = self._inherited_helper(cls_name, f.attr, self.gen_cls)
-            if h is not None:
-                return h, f.value
-        return None, None
-
-    def _expand_gen_loop(self, s, cls_name, caller_names):
-        """``for T in _gen(a): BODY`` where ``_gen`` is ``<pre>; for x in IT: <work>; yield v`` (see _gen_shape) is
-        ``<pre>; for x in IT: <work>; T = v; BODY``.  The generator runs ``<pre>`` and the first ``<work>`` when the
-        consuming loop asks for the first item, i.e. where the ``for`` statement stands; after BODY (also after its
-        ``continue``) it resumes behind the yield, which is the end of the loop body, so the next ``<work>`` follows; a
-        ``break`` / ``return`` / exception in BODY abandons the generator at the yield, where nothing is pending (the yield
-        is not inside a ``try`` / ``with``).  The generator's locals are its own (renamed apart); its arguments are
-        evaluated once, so they must be constants or names the consuming loop does not re-bind.  A consuming ``else:``
-        clause runs when the generator is exhausted = when its loop is, provided that loop has no ``break``."""
-        if not isinstance(s.iter, ast.Call):
             return None
-        h, recv = self._gen_of(s.iter, cls_name)
+        h, recv = None, None
+        if isinstance(f, ast.Name) and f.id in self.gen_mod and f.id not in self.shadowed:
+            h = self.gen_mod[f.id]
+        elif isinstance(f, ast.Attribute) and isinstance(f.value, ast.Name) and f.value.id in ('self', 'cls') and cls_name is not None:
+            h = self._inherited_helper(cls_name, f.attr, self.gen_cls)
+            recv = f.value
         if h is None:
             return None
-        tgt = s.target
-        if not (isinstance(tgt, ast.Name) or (isinstance(tgt, (ast.Tuple, ast.List)) and all(isinstance(e, ast.Name) for e in tgt.elts))):
-            return None
-        if s.orelse and h.brk:
-            raise CannotInline('consuming loop has an else clause and the generator loop can break')
+        # the generator's arguments are evaluated once, when the loop starts, while its body now runs interleaved with
+        # BODY: they must be constants or names the consuming loop does not re-bind
+        # (any other expression is bound to a temporary of its own before the loop, see _bind)
         rebound = _stored_names([s])
-        for a in list(s.iter.args) + [k.value for k in s.iter.keywords]:
-            if not (isinstance(a, ast.Constant) or (isinstance(a, ast.Name) and a.id not in rebound)):
+        for a in list(call.args) + [k.value for k in call.keywords]:
+            if _simple_arg(a) and not (isinstance(a, ast.Constant) or (isinstance(a, ast.Name) and a.id not in rebound)):
                 raise CannotInline('generator argument is not a name the consuming loop leaves alone')
-        if recv is not None and recv.id in rebound:
-            raise CannotInline('receiver re-bound in the consuming loop')
-        pre, body = self._bind(h, s.iter, recv, caller_names, None)
+        pre, body = self._bind(h, call, recv, caller_names, None)
         loop = body[-1]
-        mark = loop.body[-1]
-        if not (isinstance(loop, ast.For) and isinstance(mark, ast.Expr) and isinstance(mark.value, ast.Tuple) and mark.value.elts and
-                isinstance(mark.value.elts[0], ast.Name) and mark.value.elts[0].id == _GEN_BODY):
+        ph = loop.body[-1]
+        if s.orelse:
+            # the consuming ``else:`` runs when the generator is exhausted = when its loop is, provided that loop cannot ``break``
+            if _contains(loop.body, ast.Break, stop=(ast.FunctionDef, ast.AsyncFunctionDef, ast.ClassDef, ast.Lambda, ast.For, ast.While)):
+                raise CannotInline('consuming loop has an else clause and the generator loop can break')
+            loop.orelse = list(s.orelse)
+        if not (isinstance(ph, ast.Expr) and isinstance(ph.value, ast.Tuple) and ph.value.elts and
+                isinstance(ph.value.elts[0], ast.Name) and ph.value.elts[0].id == _YIELD_HERE):
             raise CannotInline('yield position lost')
-        v = mark.value.elts[1] if len(mark.value.elts) > 1 else ast.copy_location(ast.Constant(value=None), mark)
-        tnames = set(n.id for n in ast.walk(tgt) if isinstance(n, ast.Name))
-        if tnames & (_stored_names(body) | _stored_names(pre)):
-            raise CannotInline('generator local shares a name with the loop target')
-        assigns = None
-        if isinstance(tgt, (ast.Tuple, ast.List)) and isinstance(v, ast.Tuple) and len(v.elts) == len(tgt.elts) and \
-                not any(isinstance(e, ast.Starred) for e in v.elts):
-            vnames = set(n.id for e in v.elts for n in ast.walk(e) if isinstance(n, ast.Name))
-            if not (tnames & vnames):
-                assigns = [ast.copy_location(ast.Assign(targets=[ast.Name(id=t.id, ctx=ast.Store())], value=e), s) for t, e in zip(tgt.elts, v.elts)]
-        if assigns is None:
-            assigns = [ast.copy_location(ast.Assign(targets=[copy.deepcopy(tgt)], value=v), s)]
-        new = ast.For(target=loop.target, iter=loop.iter, body=loop.body[:-1] + assigns + list(s.body), orelse=list(s.orelse), type_comment=None)
+        v = ph.value.elts[1] if len(ph.value.elts) > 1 else ast.copy_location(ast.Constant(value=None), ph)
+        tgt = s.target
+        if isinstance(tgt, ast.Tuple) and isinstance(v, ast.Tuple) and len(tgt.elts) == len(v.elts) and \
+                not any(isinstance(e, ast.Starred) for e in tgt.elts + v.elts) and \
+                not (set(n.id for e in tgt.elts for n in ast.walk(e) if isinstance(n, ast.Name)) &
+                     set(n.id for e in v.elts for n in ast.walk(e) if isinstance(n, ast.Name))):
+            assigns = [ast.copy_location(ast.Assign(targets=[t], value=e), s) for t, e in zip(tgt.elts, v.elts)]
+        else:
+            assigns = [ast.copy_location(ast.Assign(targets=[tgt], value=v), s)]
+        loop.body = loop.body[:-1] + assigns + list(s.body)
         self.used.add(id(h.orig))
-        return pre + body[:-1] + [ast.copy_location(new, s)]
+        return pre + body
 
     # -- objects of private record classes that never leave the function creating them --------------------
     def _dissolve_objects(self, fn):
@@ -1362,8 +1439,8 @@ class Inliner(object):
                 rep = self._expand_with(s, cls_name, caller_names)
                 if rep is not None:
                     return rep
-            if isinstance(s, ast.For):
-                rep = self._expand_gen_loop(s, cls_name, caller_names)
+            if isinstance(s, ast.For) and isinstance(s.iter, ast.Call):
+                rep = self._expand_for(s, cls_name, caller_names)
                 if rep is not None:
                     return rep
             if isinstance(s, ast.Return) and isinstance(s.value, ast.Call):
